@@ -205,16 +205,16 @@ func (c *Ctx) path(v ssa.Value, env Env, d int) string {
 					if p, ok := c.resultField(st.Val, x.Field, env, d+1); ok {
 						return p
 					}
-					return c.path(st.Val, env, d+1) + "." + fieldName(x.X.Type(), x.Field)
+					return c.litField(c.path(st.Val, env, d+1), fieldName(x.X.Type(), x.Field))
 				}
 			}
 		}
-		return c.path(x.X, env, d) + "." + fieldName(x.X.Type(), x.Field)
+		return c.litField(c.path(x.X, env, d), fieldName(x.X.Type(), x.Field))
 	case *ssa.Field:
 		if p, ok := c.resultField(x.X, x.Field, env, d); ok {
 			return p
 		}
-		return c.path(x.X, env, d) + "." + fieldName(x.X.Type(), x.Field)
+		return c.litField(c.path(x.X, env, d), fieldName(x.X.Type(), x.Field))
 	case *ssa.IndexAddr:
 		if src, ok := c.subsequenceSource(x.X); ok && c.path(x.Index, env, d+1) == "ι" {
 			return c.path(src, env, d+1) + "[ι]"
@@ -405,6 +405,32 @@ func (c *Ctx) Callees(cc *ssa.CallCommon) []*ssa.Function {
 	if mc, ok := cc.Value.(*ssa.MakeClosure); ok {
 		if f, ok := mc.Fn.(*ssa.Function); ok {
 			return []*ssa.Function{f}
+		}
+	}
+	// a function variable assigned per branch and called after the branches merge: any of the functions it may hold
+	// (a nil edge is not a callee: calling it panics, which the nil-dereference rules look at)
+	if phi, ok := cc.Value.(*ssa.Phi); ok {
+		var out []*ssa.Function
+		for _, e := range phi.Edges {
+			switch x := e.(type) {
+			case *ssa.Const:
+				if !x.IsNil() {
+					return nil
+				}
+			case *ssa.MakeClosure:
+				f, _ := x.Fn.(*ssa.Function)
+				if f == nil {
+					return nil
+				}
+				out = append(out, f)
+			case *ssa.Function:
+				out = append(out, x)
+			default:
+				return nil
+			}
+		}
+		if len(out) > 0 {
+			return out
 		}
 	}
 	// a function looked up in a package-level table (map literal of function values): any entry
@@ -809,6 +835,123 @@ func nilTestEdges(v ssa.Value, wantNil bool) []edge {
 		isNilOnTrue := b.Op == token.EQL
 		out = append(out, boolEdges(b, isNilOnTrue == wantNil)...)
 	}
+	// chained error handling (`if err == nil { err = next() }; if err != nil { fail }`): v flows into φ p of block B along
+	// the edge P -> B and B branches on a nil test of p: entering B from P, the branch taken is decided by v
+	for _, r := range *v.Referrers() {
+		phi, ok := r.(*ssa.Phi)
+		if !ok {
+			continue
+		}
+		nilSucc, otherSucc := phiNilBranch(phi)
+		if nilSucc == nil {
+			continue
+		}
+		to := otherSucc
+		if wantNil {
+			to = nilSucc
+		}
+		for i, e := range phi.Edges {
+			if e == v {
+				out = append(out, edge{from: phi.Block(), to: to, via: phi.Block().Preds[i]})
+			}
+		}
+	}
+	return out
+}
+
+// phiNilBranch: the block of φ ends in a branch on `φ == nil` / `φ != nil`: the successor taken when φ is nil and the other.
+func phiNilBranch(phi *ssa.Phi) (nilSucc, otherSucc *ssa.BasicBlock) {
+	B := phi.Block()
+	if len(B.Instrs) == 0 || len(B.Succs) != 2 || B.Succs[0] == B.Succs[1] {
+		return nil, nil
+	}
+	iff, ok := B.Instrs[len(B.Instrs)-1].(*ssa.If)
+	if !ok {
+		return nil, nil
+	}
+	cond, pol := iff.Cond, true
+	for d := 0; d < 4; d++ {
+		u, isU := cond.(*ssa.UnOp)
+		if !isU || u.Op != token.NOT || u.Block() != B {
+			break
+		}
+		cond, pol = u.X, !pol
+	}
+	b, ok := cond.(*ssa.BinOp)
+	if !ok || b.Block() != B || (b.Op != token.EQL && b.Op != token.NEQ) {
+		return nil, nil
+	}
+	other := b.Y
+	if b.Y == ssa.Value(phi) {
+		other = b.X
+	} else if b.X != ssa.Value(phi) {
+		return nil, nil
+	}
+	if k, isK := other.(*ssa.Const); !isK || !k.IsNil() {
+		return nil, nil
+	}
+	nilOnTrue := (b.Op == token.EQL) == pol
+	if nilOnTrue {
+		return B.Succs[0], B.Succs[1]
+	}
+	return B.Succs[1], B.Succs[0]
+}
+
+// phiNilInfeasible: the edges B -> (successor taken when φ is nil), entered from a predecessor along whose edge the
+// incoming value of φ is known not to be nil (the predecessor, or the single-entry chain above it, branched on it).
+func phiNilInfeasible(f *ssa.Function) []edge {
+	var out []edge
+	for _, B := range f.Blocks {
+		for _, in := range B.Instrs {
+			phi, ok := in.(*ssa.Phi)
+			if !ok {
+				break
+			}
+			nilSucc, _ := phiNilBranch(phi)
+			if nilSucc == nil {
+				continue
+			}
+			for i, v := range phi.Edges {
+				if i >= len(B.Preds) {
+					continue
+				}
+				cur, next := B.Preds[i], B
+				known := false
+				for d := 0; d < 4 && !known; d++ {
+					if len(cur.Instrs) > 0 {
+						if iff, isIf := cur.Instrs[len(cur.Instrs)-1].(*ssa.If); isIf && len(cur.Succs) == 2 && cur.Succs[0] != cur.Succs[1] {
+							if b, isB := iff.Cond.(*ssa.BinOp); isB && (b.Op == token.EQL || b.Op == token.NEQ) {
+								var other ssa.Value
+								if b.X == v {
+									other = b.Y
+								} else if b.Y == v {
+									other = b.X
+								}
+								if k, isK := other.(*ssa.Const); other != nil && isK && k.IsNil() {
+									nonNilSucc := cur.Succs[0]
+									if b.Op == token.EQL {
+										nonNilSucc = cur.Succs[1]
+									}
+									known = nonNilSucc == next
+									break
+								}
+							}
+						}
+					}
+					if len(cur.Preds) != 1 {
+						break
+					}
+					cur, next = cur.Preds[0], cur
+				}
+				if !known && len(B.Preds[i].Instrs) > 0 {
+					known = nonNilErr(v, B.Preds[i].Instrs[len(B.Preds[i].Instrs)-1])
+				}
+				if known {
+					out = append(out, edge{from: B, to: nilSucc, via: B.Preds[i]})
+				}
+			}
+		}
+	}
 	return out
 }
 
@@ -939,6 +1082,27 @@ func nonNilErrD(v ssa.Value, at ssa.Instruction, d int) bool {
 		if x.Op == token.MUL {
 			if g, ok := x.X.(*ssa.Global); ok && isErrType(g.Type().(*types.Pointer).Elem()) {
 				return true // package-level sentinel errors (initialised once with errors.New)
+			}
+		}
+	case *ssa.Extract:
+		// the error result of a failure-building helper or local function literal (`return fail(err)`): on each of its
+		// exits that result is never nil
+		if cl, ok := x.Tuple.(*ssa.Call); ok && isErrType(x.Type()) {
+			f := cl.Call.StaticCallee()
+			if f == nil {
+				f = localLiteral(cl)
+			}
+			if f != nil && inModule(f) && f.Blocks != nil && (f.Object() == nil || !f.Object().Exported()) {
+				rs := returnsOf(f)
+				all := len(rs) > 0
+				for _, r := range rs {
+					if x.Index >= len(r.Results) || !nonNilErrD(returnedValue(r, x.Index), r, d+2) {
+						all = false
+					}
+				}
+				if all {
+					return true
+				}
 			}
 		}
 	case *ssa.Phi:
@@ -1115,7 +1279,7 @@ func reach(from *ssa.BasicBlock, cut map[edge]bool) map[*ssa.BasicBlock]*ssa.Bas
 				seen[s] = b
 			}
 			nx := st{s, nil}
-			if threaded[s] {
+			if threaded[s] || phiConstBranch(s) {
 				nx.via = b
 			}
 			if !done[nx] {
@@ -1124,6 +1288,36 @@ func reach(from *ssa.BasicBlock, cut map[edge]bool) map[*ssa.BasicBlock]*ssa.Bas
 		}
 	}
 	return seen
+}
+
+// phiConstBranch: block b ends in a branch on a boolean φ of b (or its negation) that has a constant edge — the branch
+// taken depends on the edge along which b is entered (short-circuit evaluation stored in a variable).
+func phiConstBranch(b *ssa.BasicBlock) bool {
+	if len(b.Instrs) == 0 || len(b.Succs) != 2 || b.Succs[0] == b.Succs[1] {
+		return false
+	}
+	iff, ok := b.Instrs[len(b.Instrs)-1].(*ssa.If)
+	if !ok {
+		return false
+	}
+	cond := iff.Cond
+	for d := 0; d < 4; d++ {
+		u, isU := cond.(*ssa.UnOp)
+		if !isU || u.Op != token.NOT || u.Block() != b {
+			break
+		}
+		cond = u.X
+	}
+	phi, ok := cond.(*ssa.Phi)
+	if !ok || phi.Block() != b {
+		return false
+	}
+	for _, e := range phi.Edges {
+		if k, isK := e.(*ssa.Const); isK && k.Value != nil && k.Value.Kind() == constant.Bool {
+			return true
+		}
+	}
+	return false
 }
 
 // constBranchExcludes: block b ends in `if p` (or !p) with p a φ of b whose edge from via is a boolean constant, and
@@ -1511,7 +1705,11 @@ func (c *Ctx) identityParam(g *ssa.Function) int {
 // caller's arguments — `x := helper(a)` reads like the code the helper was extracted from.
 func (c *Ctx) inlinedResult(cl *ssa.Call, idx int, env Env, d int) (string, bool) {
 	g := cl.Call.StaticCallee()
-	if g == nil || !inModule(g) || g.Blocks == nil || d > 8 || g.Object() == nil || g.Object().Exported() {
+	if g == nil || !inModule(g) || g.Blocks == nil || d > 8 {
+		return "", false
+	}
+	// (a function literal called where it is written has no object; it is inlined when it hosts an anchor call)
+	if lit := g.Object() == nil && g.Parent() != nil && c.inlineFns[g]; !lit && (g.Object() == nil || g.Object().Exported()) {
 		return "", false
 	}
 	if !c.inlineHelpers && !c.inlineFns[g] {
@@ -1587,7 +1785,34 @@ func (c *Ctx) concatForm(v ssa.Value, env Env) string {
 				}
 				return
 			}
+		case *ssa.UnOp:
+			// a captured variable read through its cell: what the frame says the variable holds
+			if fv, isFV := x.X.(*ssa.FreeVar); isFV && x.Op == token.MUL && env != nil {
+				if s, ok := env[fv]; ok {
+					for _, part := range strings.Split(s, " ++ ") {
+						if part != `""` {
+							add(part)
+						}
+					}
+					return
+				}
+			}
 		case *ssa.Call:
+			// a function made by an unexported factory and called here (`id := t.idFunc(did); … id(x)`): the literal's one
+			// reachable exit, its parameters bound to this call's arguments and its captured variables to what they hold
+			// when the factory makes the literal (under the factory call's arguments)
+			if fc, isFC := x.Call.Value.(*ssa.Call); isFC && !x.Call.IsInvoke() && d < 6 {
+				if g := fc.Call.StaticCallee(); g != nil && inModule(g) && g.Blocks != nil && g.Object() != nil && !g.Object().Exported() {
+					if p, ok := c.factoryCallForm(x, fc, g, env); ok {
+						for _, part := range strings.Split(p, " ++ ") {
+							if part != "" && part != `""` {
+								add(part)
+							}
+						}
+						return
+					}
+				}
+			}
 			// an unexported helper that composes the string: under the arguments of this call, the value of the one
 			// exit that stays reachable
 			if g := x.Call.StaticCallee(); g != nil && inModule(g) && g.Blocks != nil && g.Object() != nil && !g.Object().Exported() && (isStringType(x.Type()) || isEmptyInterface(x.Type())) && d < 6 {
@@ -2317,4 +2542,171 @@ func subsequenceParam(g *ssa.Function) int {
 func isInductionExpr(v ssa.Value) bool {
 	b, ok := v.(*ssa.BinOp)
 	return ok && b.Op == token.ADD && isInduction(b.X)
+}
+
+// singleStoreTo: the only store through the field address fa (which is otherwise only loaded from).
+func singleStoreTo(fa *ssa.FieldAddr) *ssa.Store {
+	if fa.Referrers() == nil {
+		return nil
+	}
+	var st *ssa.Store
+	for _, r := range *fa.Referrers() {
+		switch x := r.(type) {
+		case *ssa.Store:
+			if x.Addr != ssa.Value(fa) || st != nil {
+				return nil
+			}
+			st = x
+		case *ssa.UnOp:
+			if x.Op != token.MUL {
+				return nil
+			}
+		case *ssa.DebugRef:
+		default:
+			return nil
+		}
+	}
+	return st
+}
+
+// litField renders base.field; a base that stands for a struct literal of the caller reads as what was put into the field.
+func (c *Ctx) litField(base, field string) string {
+	if fs, ok := c.structLits[base]; ok {
+		if p, has := fs[field]; has {
+			return p
+		}
+	}
+	return base + "." + field
+}
+
+// factoryCallForm: call invokes the function literal that factory g (called at fc) hands back; returns the concatenation
+// form of the literal's result.
+func (c *Ctx) factoryCallForm(call, fc *ssa.Call, g *ssa.Function, env Env) (string, bool) {
+	genv := c.concatEnv(&fc.Call, g, env)
+	cut := c.pruned(g, genv)
+	live := reach(g.Blocks[0], cut)
+	var mc *ssa.MakeClosure
+	n := 0
+	for _, r := range returnsOf(g) {
+		if _, l := live[r.Block()]; !l || len(r.Results) != 1 {
+			continue
+		}
+		n++
+		mc, _ = stripConv(r.Results[0]).(*ssa.MakeClosure)
+	}
+	if n != 1 || mc == nil {
+		return "", false
+	}
+	lit, _ := mc.Fn.(*ssa.Function)
+	if lit == nil || lit.Blocks == nil {
+		return "", false
+	}
+	lenv := Env{}
+	for i, p := range lit.Params {
+		if i < len(call.Call.Args) {
+			if isStringType(p.Type()) {
+				lenv[p] = c.concatForm(call.Call.Args[i], env)
+				if lenv[p] == "" {
+					lenv[p] = `""`
+				}
+			} else {
+				lenv[p] = c.Path(call.Call.Args[i], env)
+			}
+		}
+	}
+	for i, b := range mc.Bindings {
+		if i >= len(lit.FreeVars) {
+			break
+		}
+		cell, isCell := b.(*ssa.Alloc)
+		if !isCell {
+			lenv[lit.FreeVars[i]] = c.Path(b, genv)
+			continue
+		}
+		// the stores into the cell that may still be what it holds when the literal is made
+		var stores []*ssa.Store
+		okCell := true
+		for _, r := range *cell.Referrers() {
+			switch y := r.(type) {
+			case *ssa.Store:
+				if y.Addr == ssa.Value(cell) {
+					if _, l := live[y.Block()]; l {
+						stores = append(stores, y)
+					}
+				} else {
+					okCell = false
+				}
+			case *ssa.UnOp, *ssa.MakeClosure, *ssa.DebugRef:
+			default:
+				okCell = false
+			}
+		}
+		if !okCell {
+			return "", false
+		}
+		var reaching []*ssa.Store
+		for _, st := range stores {
+			// a later store in the same block overrides this one
+			overridden := false
+			for _, o := range stores {
+				if o != st && o.Block() == st.Block() && instrBefore(st, o) && (o.Block() != mc.Block() || instrBefore(o, mc)) {
+					overridden = true
+				}
+			}
+			if overridden {
+				continue
+			}
+			if st.Block() == mc.Block() {
+				if instrBefore(st, mc) {
+					reaching = append(reaching, st)
+				}
+				continue
+			}
+			kcut := map[edge]bool{}
+			for e := range cut {
+				kcut[e] = true
+			}
+			for _, o := range stores {
+				if o.Block() != st.Block() && (o.Block() != mc.Block() || instrBefore(o, mc)) {
+					// entering another store's block kills this one
+					for _, p := range o.Block().Preds {
+						kcut[edge{from: p, to: o.Block()}] = true
+					}
+				}
+			}
+			killedInTarget := false
+			for _, o := range stores {
+				if o.Block() == mc.Block() && instrBefore(o, mc) {
+					killedInTarget = true
+				}
+			}
+			if _, r := reach(st.Block(), kcut)[mc.Block()]; r && !killedInTarget {
+				reaching = append(reaching, st)
+			}
+		}
+		if len(reaching) != 1 {
+			return "", false
+		}
+		v := reaching[0].Val
+		if isStringType(v.Type()) {
+			lenv[lit.FreeVars[i]] = c.concatForm(v, genv)
+			if lenv[lit.FreeVars[i]] == "" {
+				lenv[lit.FreeVars[i]] = `""`
+			}
+		} else {
+			lenv[lit.FreeVars[i]] = c.Path(v, genv)
+		}
+	}
+	var rets []*ssa.Return
+	lcut := c.pruned(lit, lenv)
+	llive := reach(lit.Blocks[0], lcut)
+	for _, r := range returnsOf(lit) {
+		if _, l := llive[r.Block()]; l {
+			rets = append(rets, r)
+		}
+	}
+	if len(rets) != 1 || len(rets[0].Results) != 1 {
+		return "", false
+	}
+	return c.concatForm(returnedValue(rets[0], 0), lenv), true
 }
